@@ -130,6 +130,79 @@ fn check_inv(rtxn: &heed::RoTxn, db: Database<D>, index: u16) -> Result<(), Stri
     Ok(())
 }
 
+/// C18 through the public API: items under D (optionally all deleted and rebuilt), change to ND;
+/// every leaf must equal what add_item under ND stores for the vector item_vector returned under D;
+/// no metadata / tree key may survive; the index must demand a build; a rebuild must succeed.
+fn change_metric_case<D0: crate::Distance, ND: crate::Distance>(d: usize, item_ids: &[u32], empty: bool) -> Vec<String> {
+    let mut verdict = vec![];
+    let dir = tempfile::tempdir().unwrap();
+    let env = unsafe { EnvOpenOptions::new().map_size(200 * 1024 * 1024).open(dir.path()) }.unwrap();
+    let mut wtxn = env.write_txn().unwrap();
+    let db: Database<D0> = env.create_database(&mut wtxn, None).unwrap();
+    let w = Writer::<D0>::new(db, 0, d);
+    for (n, i) in item_ids.iter().enumerate() {
+        let v: Vec<f32> = (0..d).map(|j| if (j + n) % 2 == 0 { 1.0 + n as f32 } else { -1.0 - j as f32 }).collect();
+        w.add_item(&mut wtxn, *i, &v).unwrap();
+    }
+    let mut rng = StdRng::seed_from_u64(0);
+    w.builder(&mut rng).n_trees(1).split_after(2).build(&mut wtxn).unwrap();
+    if empty {
+        for i in item_ids {
+            w.del_item(&mut wtxn, *i).unwrap();
+        }
+        let mut rng = StdRng::seed_from_u64(0);
+        w.builder(&mut rng).n_trees(1).split_after(2).build(&mut wtxn).unwrap();
+    }
+    let old: Vec<(u32, Vec<f32>)> = w.iter(&wtxn).unwrap().map(|r| r.unwrap()).collect();
+    let nw = w.prepare_changing_distance::<ND>(&mut wtxn).unwrap();
+    // reference: a fresh database where the same vectors are added under ND
+    let dir2 = tempfile::tempdir().unwrap();
+    let env2 = unsafe { EnvOpenOptions::new().map_size(200 * 1024 * 1024).open(dir2.path()) }.unwrap();
+    let mut w2txn = env2.write_txn().unwrap();
+    let db2: Database<ND> = env2.create_database(&mut w2txn, None).unwrap();
+    let rw = Writer::<ND>::new(db2, 0, d);
+    for (i, v) in &old {
+        rw.add_item(&mut w2txn, *i, v).unwrap();
+    }
+    let raw = db.remap_types::<Bytes, Bytes>();
+    let raw2 = db2.remap_types::<Bytes, Bytes>();
+    for (i, _) in &old {
+        let key = Key::item(0, *i);
+        let kb = KeyCodec::bytes_encode(&key).unwrap();
+        let got = raw.get(&wtxn, &kb).unwrap().map(|b| b.to_vec());
+        let want = raw2.get(&w2txn, &kb).unwrap().map(|b| b.to_vec());
+        if got != want {
+            verdict.push(format!(
+                "after changing the metric the leaf of item {i} is not what add_item under the new metric stores ({} bytes vs {} bytes)",
+                got.as_ref().map_or(0, |b| b.len()), want.as_ref().map_or(0, |b| b.len())));
+            break;
+        }
+    }
+    for r in raw.iter(&wtxn).unwrap() {
+        let (k, _) = r.unwrap();
+        let key = KeyCodec::bytes_decode(k).unwrap();
+        if key.node.mode == NodeMode::Tree || (key.node.mode == NodeMode::Metadata && key.node.item == 0) {
+            verdict.push(format!("after changing the metric the key {:?} of the old forest/metadata is still there", key.node));
+            break;
+        }
+    }
+    if !nw.need_build(&wtxn).unwrap() {
+        verdict.push("after changing the metric the index does not demand a build".into());
+    }
+    let v: Vec<f32> = (0..d).map(|j| j as f32 + 0.5).collect();
+    nw.add_item(&mut wtxn, 9, &v).unwrap();
+    let mut rng = StdRng::seed_from_u64(0);
+    let r = std::panic::catch_unwind(std::panic::AssertUnwindSafe(|| {
+        nw.builder(&mut rng).n_trees(1).split_after(2).build(&mut wtxn).map_err(|e| e.to_string())
+    }));
+    match r {
+        Err(_) => verdict.push("building after the metric change panicked".into()),
+        Ok(Err(e)) => verdict.push(format!("building after the metric change failed: {e}")),
+        Ok(Ok(())) => println!("STEP rebuilt under the new metric"),
+    }
+    verdict
+}
+
 #[test]
 fn verif_replay() {
     let path = std::env::var("VERIF_SCENARIO").expect("VERIF_SCENARIO");
@@ -322,41 +395,26 @@ fn run_one(text: &str) {
                 }
             }
             "change_metric" => {
-                // from=bq_euclidean to=euclidean dim=N: a self-contained sub-scenario in its own database
-                use crate::distance::BinaryQuantizedEuclidean as Bq;
+                // from=<m> to=<m> dim=N items=a,b empty=0|1 : self-contained sub-scenario (own database)
                 let d: usize = kv(&tok, "dim").unwrap().parse().unwrap();
-                let dir2 = tempfile::tempdir().unwrap();
-                let env2 = unsafe { EnvOpenOptions::new().map_size(200 * 1024 * 1024).open(dir2.path()) }.unwrap();
-                let mut w2txn = env2.write_txn().unwrap();
-                let dbq: Database<Bq> = env2.create_database(&mut w2txn, None).unwrap();
-                let wq = Writer::<Bq>::new(dbq, 0, d);
-                for i in 0..4u32 {
-                    let v: Vec<f32> = (0..d).map(|j| if (j as u32 + i) % 2 == 0 { 1.0 } else { -1.0 }).collect();
-                    wq.add_item(&mut w2txn, i, &v).unwrap();
+                let item_ids = ids(kv(&tok, "items").unwrap_or("1,2,3,4294967295"));
+                let empty = kv(&tok, "empty").unwrap_or("0") == "1";
+                let from = kv(&tok, "from").unwrap();
+                let to = kv(&tok, "to").unwrap();
+                macro_rules! go {
+                    ($D:ty, $ND:ty) => {{
+                        let r = change_metric_case::<$D, $ND>(d, &item_ids, empty);
+                        verdict.extend(r);
+                    }};
                 }
-                let mut rng = StdRng::seed_from_u64(0);
-                wq.builder(&mut rng).n_trees(1).split_after(2).build(&mut w2txn).unwrap();
-                let we = wq.prepare_changing_distance::<Euclidean>(&mut w2txn).unwrap();
-                let raw2 = dbq.remap_types::<Bytes, Bytes>();
-                for i in 0..4u32 {
-                    let key = Key::item(0, i);
-                    let kb = KeyCodec::bytes_encode(&key).unwrap();
-                    let len = raw2.get(&w2txn, &kb).unwrap().unwrap().len();
-                    if len != 1 + 4 + 4 * d {
-                        verdict.push(format!("after changing the metric the leaf of item {i} is {len} bytes, a {d}-dimensional euclidean leaf is {} bytes", 1 + 4 + 4 * d));
-                        break;
-                    }
-                }
-                let v: Vec<f32> = (0..d).map(|j| j as f32).collect();
-                we.add_item(&mut w2txn, 9, &v).unwrap();
-                let mut rng = StdRng::seed_from_u64(0);
-                let r = std::panic::catch_unwind(std::panic::AssertUnwindSafe(|| {
-                    we.builder(&mut rng).n_trees(1).split_after(2).build(&mut w2txn).map_err(|e| e.to_string())
-                }));
-                match r {
-                    Err(_) => verdict.push("building after the metric change panicked".into()),
-                    Ok(Err(e)) => verdict.push(format!("building after the metric change failed: {e}")),
-                    Ok(Ok(())) => println!("STEP rebuilt under the new metric"),
+                use crate::distance::{BinaryQuantizedCosine as Bqc, BinaryQuantizedEuclidean as Bqe, Cosine, Manhattan};
+                match (from, to) {
+                    ("euclidean", "cosine") => go!(Euclidean, Cosine),
+                    ("euclidean", "manhattan") => go!(Euclidean, Manhattan),
+                    ("euclidean", "bq_euclidean") => go!(Euclidean, Bqe),
+                    ("bq_euclidean", "euclidean") => go!(Bqe, Euclidean),
+                    ("bq_euclidean", "bq_cosine") => go!(Bqe, Bqc),
+                    _ => panic!("unsupported metric pair"),
                 }
             }
             "expect_n_trees_at_least" => {
